@@ -17,14 +17,14 @@ RULE = ("for every operation (connect without/with authentication incl. the publ
 ASSUMPTIONS = ["read_timeout_s=None is not a documented value (min() raises TypeError) and auth_timeout_s=None with a silent device waits indefinitely by contract: neither is decided",
                "a device that keeps sending WRTE packets the operation is waiting for is making progress, not stalling",
                "flood stall kinds deliver one packet per 0.05 virtual seconds (a finite-rate device)"]
-SHARDS = {"quick": 8, "thorough": 16}
+SHARDS = {"quick": 16, "thorough": 16}
 TIME_BUDGET = {"quick": 300, "thorough": 1800}
 FLOORS = {"quick": {"stalls_reached": 5000, "timeout_args_checked": 10000, "distinct": 1000}, "thorough": {"stalls_reached": 30000}}
 EXHAUSTIVE = {"quick": False, "thorough": True}
 
 K = 8
 OPS = ["connect", "connect-auth", "shell", "exec_out", "streaming_shell", "root", "reboot", "list", "stat", "pull", "pull-cb", "push", "push-dir"]
-STALLS = ["silence", "eof", "trickle", "other-traffic", "unexpected", "partial", "data-flood", "mute-stream", "one-other-stream"]
+STALLS = ["silence", "eof", "trickle", "other-traffic", "unexpected", "partial", "data-flood", "mute-stream", "one-other-stream", "header-then-nothing"]
 TS = [None, 0, 0.5, -1, 3]
 RS = [0, 0.3, 2, -1, 10]
 XS = [None, 0, 1, 5]
@@ -91,7 +91,7 @@ def setup(impl, case):
     out = sess.call("connect")
     assert out.ok
     if op in ("shell", "exec_out", "streaming_shell"):
-        sim.scripts[(b"exec:" if op == "exec_out" else b"shell:") + b"cmd"] = [b"one", b"two-two", b"3"] + ([b"chunk-%d" % k for k in range(6)] if big else [])
+        sim.scripts[(b"exec:" if op == "exec_out" else b"shell:") + b"cmd"] = [b"one", b"two-two", b"\x00\x00\x00", b"3"] + ([b"chunk-%d" % k for k in range(6)] if big else [])
         kw2 = dict(kw, decode=False)
         if op != "streaming_shell":
             kw2["timeout_s"] = X
@@ -202,7 +202,7 @@ class Staller(object):
                 return out
             self.sim._ready = ready
             return
-        self.sim.stop_after = stop + (1 if kind in ("trickle", "partial") else 0)
+        self.sim.stop_after = stop + (1 if kind in ("trickle", "partial", "header-then-nothing") else 0)
 
     def target_stream(self):
         live = [st for st in self.sim.all_streams if st in self.sim.streams.values() and not st.dead]
@@ -213,6 +213,28 @@ class Staller(object):
         if self.kind == "mute-stream":
             return self.orig(numbytes, timeout)
         stalled = sim.emitted >= sim.stop_after and not sim.wirebuf
+        if self.kind == "header-then-nothing":
+            # packet number `stop` delivers exactly its 24-byte header; from then on the link returns no bytes (0.05 virtual seconds per attempt)
+            sim.wire_available(1)
+            if sim.emitted > self.stop and sim.wirebuf:
+                if self.partial_left is None:
+                    self.partial_left = 24 if len(sim.wirebuf) > 24 else max(1, len(sim.wirebuf) // 2)
+                core._enter("read", numbytes)
+                core.read_timeouts.append(("r", timeout))
+                if self.partial_left > 0:
+                    k = min(self.partial_left, numbytes)
+                    self.partial_left -= k
+                    return sim.wire_take(k)
+                self.reached = True
+                core.clock.advance(0.05)
+                return b""
+            if stalled:
+                self.reached = True
+                core._enter("read", numbytes)
+                core.read_timeouts.append(("r", timeout))
+                core.clock.advance(0.05)
+                return b""
+            return self.orig(numbytes, timeout)
         if self.kind == "partial":
             # packet number `stop` is cut in the middle: its first half arrives, then silence
             sim.wire_available(1)
